@@ -111,10 +111,10 @@ def build(info):
         env = dict(os.environ)
         env['CARGO_NET_OFFLINE'] = 'true'
         env['CARGO_TARGET_DIR'] = os.path.join(d, 'target')
-        p = subprocess.run(['cargo', 'build', '--offline', '--quiet'], cwd=d, env=env, capture_output=True, text=True, timeout=600)
+        p = subprocess.run(['cargo', 'build', '--offline', '--quiet', '--release'], cwd=d, env=env, capture_output=True, text=True, timeout=600)
         if p.returncode != 0:
             raise NativeError('replayer does not build against %s: %s' % (REPO, p.stderr[-1500:]))
-        return os.path.join(d, 'target', 'debug', 'pckb-replayer')
+        return os.path.join(d, 'target', 'release', 'pckb-replayer')
     finally:
         fcntl.flock(lockf, fcntl.LOCK_UN)
         lockf.close()
